@@ -183,7 +183,15 @@ func c10(c *evid.Ctx) {
 					valid bool
 				}
 				str := func(s string) *string { return &s }
-				port := func() int { return 1 + r.Intn(65535) }
+				// every variant gets its own source port (replies are attributed by source address)
+				nextPort := 10000 + r.Intn(20000)
+				port := func() int {
+					nextPort++
+					if nextPort == A.Port {
+						nextPort++
+					}
+					return nextPort
+				}
 				vs := []variant{
 					{"exact, same port", &net.UDPAddr{IP: A.IP, Port: A.Port}, str(tokA), true},
 					{"exact, other port", &net.UDPAddr{IP: A.IP, Port: port()}, str(tokA), true},
@@ -308,7 +316,6 @@ func c10(c *evid.Ctx) {
 			}
 		}
 	}
-	if c.Counter("judged: must-accept / valid token") == 0 || c.Counter("judged: must-reject / valid token") == 0 {
-		c.Inconclusive("window edges not exercised")
-	}
+	c.Floor("judged: must-accept / valid token", 1)
+	c.Floor("judged: must-reject / valid token", 1)
 }
